@@ -239,7 +239,7 @@ def _line_end(text, off):
     return len(text) if j < 0 else j + 1
 
 
-def build_fn(repo, blk, log):
+def build_fn(repo, blk, log, abstract=()):
     m = re.match(r'(\S+)\s*::\s*(.*?)\s*::\s*(\w+)\s*$', blk.header)
     if not m:
         raise GenError('bad //@extract fn header: %s' % blk.header)
@@ -255,14 +255,22 @@ def build_fn(repo, blk, log):
     vis = 'pub'
     ret = 'r'
     props = None
+    lost = []          # anchors of ghost hints / invariants / idioms that no longer match the body
     loops = src.loops_in(it.body_start, it.body_end)
     item_id = '%s::%s' % (container if container not in ('-', '') else rel.split('/')[-1], name)
     item_id = re.sub(r'^(impl|trait)(<[^>]*>)?\s+', '', item_id)
     item_id = re.sub(r"<[^<>]*>", '', item_id)
     item_id = re.sub(r'^(\w+)\s*:[^:].*?::', r'\1::', item_id)   # `trait X: Bound` -> X
     body_rel = it.body_start - base
+    is_abstract = item_id in abstract
+    if is_abstract:
+        # the body left the verifiable subset: keep signature + contract, assume the contract
+        # (this function is then UNDECIDED by lane V; the rest of the unit is still checked)
+        ed.replace(body_rel + 1, len(text) - 1, ' unimplemented!() ', 'ABSTRACTED')
 
     for (word, rest, raw, tline) in blk.subs:
+        if is_abstract and word in ('loop', 'before', 'after', 'idiom', 'idiom?'):
+            continue
         d = {'kind': word, 'arg': rest, 'tline': tline}
         if word == 'props':
             props = rest.replace(',', ' ').split()
@@ -278,7 +286,8 @@ def build_fn(repo, blk, log):
                 raise GenError('bad //@loop: %s' % rest)
             k = int(mm.group(1))
             if k < 1 or k > len(loops):
-                raise GenError('%s: loop %d not found (body has %d loops)' % (item_id, k, len(loops)))
+                lost.append('loop %d (body has %d loops)' % (k, len(loops)))
+                continue
             kw_off, kw, brace_off, in_off = loops[k - 1]
             if mm.group(2):
                 if in_off is None:
@@ -290,7 +299,11 @@ def build_fn(repo, blk, log):
             if len(parts) != 1:
                 raise GenError('bad //@%s anchor: %s' % (word, rest))
             body = text[body_rel:]
-            p = _nth(body, parts[0], n, item_id) + body_rel
+            try:
+                p = _nth(body, parts[0], n, item_id) + body_rel
+            except GenError as e:
+                lost.append('%s `%s`: %s' % (word, parts[0][:60], 'ambiguous' if 'ambiguous' in str(e) else 'not found'))
+                continue
             if word == 'before':
                 off = _line_start(text, p)
             else:
@@ -303,7 +316,7 @@ def build_fn(repo, blk, log):
                 apply_idiom(ed, text, base, body_rel, loops, rest, item_id, log, rel, src)
             except GenError as e:
                 if word == 'idiom':
-                    raise
+                    lost.append('idiom %s: %s' % (rest.split()[0], str(e)[:80]))
                 log['idioms'].append({'rule': rest.split()[0], 'item': item_id, 'file': rel,
                                       'skipped': str(e)})
         else:
@@ -349,12 +362,17 @@ def build_fn(repo, blk, log):
         return {'file': rel, 'line': src.line_of(base + off)}
 
     segs, originals = ed.render(origin_of)
+    if is_abstract:
+        segs = [('/*@I{*/', ('mark', None)),
+                ('#[verifier::external_body]\n', ('ins', {'kind': 'abstracted', 'arg': ''}, None, 0)),
+                ('/*@}*/', ('mark', None))] + segs
     gen = ''.join(s for s, _ in segs)
     # ---- self-check: erase(generated) == repository text ---------------------------------
     if squash(erase(gen, originals)) != squash(text):
         raise GenError('self-check failed for %s: erased text differs from %s' % (item_id, rel))
     log['items'].append({
-        'item': item_id, 'kind': 'fn', 'file': rel, 'line': it.line, 'props': props,
+        'item': item_id, 'kind': 'fn', 'file': rel, 'line': it.line, 'props': props, 'lost_anchors': lost,
+        'abstracted': is_abstract,
         'end_line': src.line_of(it.body_end),
         'repo_bytes': len(text), 'rewrites': [dict(o) for o in originals],
         'insertions': len(ed.ins), 'self_check': 'erase(generated)==repo',
@@ -597,7 +615,7 @@ class Repo:
         return self._cache[rel]
 
 
-def generate(template, repo_root, out_rs, out_map):
+def generate(template, repo_root, out_rs, out_map, abstract=()):
     repo = Repo(repo_root)
     log = {'template': template, 'items': [], 'idioms': []}
     parts = parse_template(template)
@@ -625,11 +643,29 @@ def generate(template, repo_root, out_rs, out_map):
             emit(p[1] + '\n', {'src': 'template', 'line': p[2]})
             continue
         blk = p[1]
+        if blk.kind == 'consts':
+            # every top-level `const` of a source file (so that a body referring to a new constant still resolves)
+            rel = blk.header.strip()
+            src = repo.source(rel)
+            for cname in src.top_level_consts():
+                sub = Block('type', '%s :: const %s' % (rel, cname), blk.tline)
+                item_id, segs, origin_of = build_type(repo, sub, log)
+                for (txt, org) in segs:
+                    if org[0] == 'mark':
+                        emit(txt, None)
+                    elif org[0] == 'repo':
+                        emit(txt, dict(origin_of(org[1]), src='repo', item=item_id))
+                    elif org[0] == 'rew':
+                        emit(txt, dict(origin_of(org[2]), src='rewrite', item=item_id, rule=org[1]))
+                    else:
+                        emit(txt, None)
+                emit('\n', None)
+            continue
         if getattr(blk, 'optional', False):
             # `//@extract?`: the item may legitimately be absent (template follows the code across a repair)
             try:
                 if blk.kind == 'fn':
-                    item_id, segs, origin_of = build_fn(repo, blk, log)
+                    item_id, segs, origin_of = build_fn(repo, blk, log, abstract)
                 else:
                     item_id, segs, origin_of = build_type(repo, blk, log)
             except GenError as e:
@@ -638,7 +674,7 @@ def generate(template, repo_root, out_rs, out_map):
                     continue
                 raise
         elif blk.kind == 'fn':
-            item_id, segs, origin_of = build_fn(repo, blk, log)
+            item_id, segs, origin_of = build_fn(repo, blk, log, abstract)
         elif blk.kind == 'type':
             item_id, segs, origin_of = build_type(repo, blk, log)
         else:
